@@ -40,6 +40,21 @@ def gen_scenarios(seed, tier):
     n = 2400 if tier == "quick" else 40000
     for i in range(n):
         yield gen_one(rng, i)
+    # directed family `slow-veto` (own PRNG, appended so that the main stream is unchanged): an overdue job whose cancel() takes
+    # (virtual) time inside the delegate and then REFUSES, and a second job whose deadline falls after that attempt has ended;
+    # nothing else wakes the thread in between, so the sleep computed after the attempt must be measured from a fresh clock reading
+    rng2 = random.Random(seed * 7129 + 5)
+    for j in range(40 if tier == "quick" else 600):
+        ta = rng2.choice([0.5, 1.0, 1.0, 2.0])
+        delay = rng2.choice([1.0, 2.0, 2.0, 3.0])
+        tb = ta + delay + rng2.choice([0.5, 1.0, 2.0])
+        ops = [("submit", "k0", ta, [("sleep", 30.0), ("ret", 0)]), ("submit", "k1", tb, [("sleep", 30.0), ("ret", 1)])]
+        if rng2.random() < 0.3:
+            ops.append(("submit", "k2", tb + delay + rng2.choice([0.5, 1.5]), [("sleep", 30.0), ("ret", 2)]))   # after k1's slow attempt has ended
+        d = dict(kind="timeout", family="slow-veto", idx=n + j, delegate="pool3", default_timeout=rng2.choice([20.0, 25.0]),
+                 clients=[ops], tail=tb + 2 * delay + 8.0, slow_cancel=delay, seed=rng2.randrange(1 << 30))
+        d.update(schedule_modes(rng2))
+        yield d
 
 
 def gen_one(rng, i):
@@ -83,6 +98,21 @@ def body_for(desc, ctx):
     def body(s, w):
         dl = desc["delegate"]
         delegate = SimSync() if dl == "sync" else SimPool(int(dl[4:]))
+        if desc.get("slow_cancel"):
+            pool_submit = delegate.submit
+
+            def slow_submit(fn, *a, **k):
+                f = pool_submit(fn, *a, **k)
+                plain_cancel = f.cancel
+
+                def cancel():
+                    r = plain_cancel()
+                    if not r:
+                        s.sleep(desc["slow_cancel"])       # a refusing cancel hook that takes its time (user code below the layer)
+                    return r
+                f.cancel = cancel
+                return f
+            delegate.submit = slow_submit
         ex = TimeoutExecutor(delegate, desc["default_timeout"])
         ctx.ex = ex
         ctx.futs = {}
@@ -232,7 +262,10 @@ def run_one(desc):
              "idle_jumps": sum(1 for e in s.log if e[1] == "idle_jump"), "ticks": sum(1 for e in s.log if e[1] == "tick"),
              "end_" + str(s.end_reason): 1, "mode_" + desc.get("mode", "random") + ("_lines" if desc.get("trace_lines", True) else "_prims"): 1}
     block = ptimeout.project(s.log)
-    r = {"hits": hits, "blocks": [block], "stats": stats, "schedule": list(s.chooser.record),
+    if desc.get("family") == "slow-veto":
+        # monitors only: in Model/Timeout a cancel attempt takes no time, so the candidate-set validator has no run for these logs
+        stats["family_slow_veto"] = 1
+    r = {"hits": hits, "blocks": [] if desc.get("family") == "slow-veto" else [block], "stats": stats, "schedule": list(s.chooser.record),
          "fingerprint": fingerprint(desc, s) if (nwait and nsub) else None}
     if desc.get("idx", 1) == 0:
         r["sample"] = {"desc": desc, "log_head": [" ".join(map(str, e)) for e in s.log if e[1] != "q"][:40]}
